@@ -110,8 +110,7 @@ type World struct {
 	// spec C17lock (lockspec.go): simulated mutexes, concurrent side operations, a Proxy
 	lock       bool
 	rt         *kernel.LockRuntime
-	lockWeight int
-	heldDen    int
+	ls         *kernel.Lockstep
 	ops        []*sideOp
 	maxOps     int
 	opsActive  int
@@ -561,10 +560,10 @@ func (w *World) Options(s *kernel.Sim) []kernel.Option {
 	}
 	for _, p := range parked {
 		switch p.Name {
-		case kernel.SeamLock, kernel.SeamRLock, kernel.SeamHeld:
-			// a goroutine of the code under test in front of a (simulated) mutex, or descheduled right after acquiring it:
-			// letting it go on is always honest
-			opts = append(opts, s.ReleaseOpt(p, kernel.Decision{Kind: "ok"}, w.lockWeight))
+		case kernel.SeamLock, kernel.SeamRLock, kernel.SeamHeld, kernel.SeamYield:
+			// a goroutine of the code under test in front of a (simulated) mutex, descheduled right after acquiring it,
+			// or at a statement boundary: letting it go on is always honest
+			opts = append(opts, s.ReleaseOpt(p, kernel.Decision{Kind: "ok"}, w.ls.Weight))
 		case "log.add":
 			l := w.byURL[p.Digest]
 			kind := map[string]string{"good": "ok", "bad": "log.err", "hang": "log.hang"}[l.Behaviour]
@@ -679,8 +678,7 @@ func (w *World) knownThroughout(u string, c *call) bool {
 // AfterStep harvests finished refreshes and calls.
 func (w *World) AfterStep(s *kernel.Sim) {
 	if w.rt != nil {
-		if key, detail, ok := w.rt.Deadlock(); ok {
-			s.Violate("lock-deadlock", key, "goroutines wait for each other's locks forever: %s", detail)
+		if w.ls.Check() {
 			return
 		}
 		w.harvestOps()
